@@ -106,6 +106,30 @@ def evaluate(case):
             fails.append(f"fourier_transform({side}): differs from transforming the pre-deleted data with the same window")
         return fails
     m = (x >= lo) & (x <= hi)
+    # the documented positional form fourier_transform(xin, yin, xout, xmin, xmax, dy_in) is the keyword form
+    if case["wkind"] != "empty":
+        with np.errstate(all="ignore"):
+            kwform = tr.fourier_transform(x, y, xo, xmin=lo, xmax=hi, dy_in=dy, **kw)
+            try:
+                posform = tr.fourier_transform(x, y, xo, lo, hi, dy, **kw)
+                if not same(posform, kwform):
+                    fails.append(f"fourier_transform(xin, yin, xout, {lo!r}, {hi!r}, dy): the documented positional form gives a different result "
+                                 "than xmin=, xmax=, dy_in= by keyword")
+            except Exception as ex:  # noqa: BLE001
+                fails.append(f"fourier_transform with the window given positionally raises {type(ex).__name__}")
+    if case["wkind"] != "empty" and len(x) >= 6:
+        # the same rows stored as two banks, high bank first: the window [lo, hi] still equals deleting the outside rows beforehand
+        k2 = len(x) // 2
+        order = np.concatenate([np.arange(k2, len(x)), np.arange(0, k2)])
+        xr, yr, er = x[order], y[order], None if dy is None else dy[order]
+        mr = (xr >= lo) & (xr <= hi)
+        if int(mr.sum()) >= 2:
+            with np.errstate(all="ignore"):
+                w1 = tr.fourier_transform(xr, yr, xo, xmin=lo, xmax=hi, dy_in=er, **kw)
+                w2 = tr.fourier_transform(xr[mr], yr[mr], xo, xmin=lo, xmax=hi, dy_in=None if er is None else er[mr], **kw)
+            if not same(w1, w2):
+                fails.append(f"fourier_transform on rows stored as two banks (high first) with the window [{lo!r}, {hi!r}]: differs from "
+                             "transforming the pre-deleted rows with the same window")
     if case["wkind"] == "empty":
         cx, cy, ce = tr.apply_cropping(x, y, lo, hi, dy=dy)
         if len(cx) or len(cy) or len(ce):
